@@ -336,6 +336,12 @@ def check(pid, prop, tier, seed, n, scratch, t0, only_index):
         seeds = [seed]
         outdir = os.path.join(scratch, "run0")
         rc, out = run_driver(binp, prop, seed, n, tier, outdir)
+        if rc == 3:   # harness infrastructure trouble (common.Must): retry once
+            shutil.rmtree(outdir, ignore_errors=True)
+            rc, out = run_driver(binp, prop, seed, n, tier, outdir)
+            if rc == 3:
+                print("HARNESS-ERROR property=%s: %s" % (pid, out[-400:].replace("\n", " ")))
+                return 2
         if rc != 0:
             broken.append("driver failed (exit %d)" % rc)
             notes.append(out[-3000:])
